@@ -66,6 +66,8 @@ def _m5():
     cfg['max_apps'] = 2
     cfg['allow_nocycle'] = False
     cfg['allow_late'] = True
+    cfg['late_kinds'] = ('pres+', 'pres-')
+    cfg['seeds'] = [(), (('app+', 'sm', True),)]
     cfg['events'] = mastercfg.ev(
         ('app+', 'sm'),
         ('pres-', 's0'), ('pres+', 's0', 0),
@@ -80,7 +82,7 @@ def configs(ctx):
     if ctx.quick:
         return [('K1', _k1(), 4, 1),
                 ('M1', _m1(), 3, 0, _masterprop.MasterSpec),
-                ('M5', _m5(), 6, 1, _masterprop.MasterSpec)]
+                ('M5', _m5(), 5, 1, _masterprop.MasterSpec)]
     return [('K1', _k1(), 6, 1),
             ('M1', _m1(), 5, 1, _masterprop.MasterSpec),
             ('M5', _m5(), 8, 1, _masterprop.MasterSpec)]
